@@ -598,6 +598,32 @@ func mutate1(b *pb.InternalBlock, p base, a []string, arg func(int) int) string 
 		}
 		b.MerkleTree[len(b.MerkleTree)-1], _ = flipLast(b.MerkleTree[len(b.MerkleTree)-1])
 		return "obs"
+	case "fixleaves":
+		// the carried merkle tree is outside id and signature: a forger who changed the body can rewrite its
+		// leaves to the new txids and leave the inner nodes and the root as the proposer computed them
+		if len(b.MerkleTree) == 0 {
+			return ""
+		}
+		for i, t := range b.Transactions {
+			if i < len(b.MerkleTree) {
+				b.MerkleTree[i] = t.GetTxid()
+			}
+		}
+		return "accept"
+	case "fixtree":
+		// ... or recompute the whole carried tree from the new body and put the signed root back on top
+		if len(b.MerkleTree) == 0 || len(b.Transactions) == 0 {
+			return ""
+		}
+		b.MerkleTree = ledger.MakeMerkleTree(b.Transactions)
+		b.MerkleTree[len(b.MerkleTree)-1] = append([]byte{}, b.MerkleRoot...)
+		return "accept"
+	case "droptree":
+		if len(b.MerkleTree) == 0 {
+			return ""
+		}
+		b.MerkleTree = nil
+		return "obs"
 	case "txdrop":
 		i := arg(1)
 		if i >= len(b.Transactions) {
@@ -842,7 +868,7 @@ func mutationsFor(p base, r *xvlib.Rng, all bool) []string {
 	for _, h := range hdr {
 		ms = append(ms, h, h+"+reid")
 	}
-	ms = append(ms, "inc:height", "flip:fkey0", "jshift", "fshift", "mtree", "takeover",
+	ms = append(ms, "inc:height", "flip:fkey0", "jshift", "fshift", "mtree", "droptree", "takeover",
 		"flip:sign", "clear:sign", "flip:blockid", "clear:blockid", "signother", "pkother", "pkother+signother", "pkother+reid+signother", "pkother+reid")
 	idx := func() int { return r.Intn(p.n) }
 	body := []string{}
@@ -874,6 +900,8 @@ func mutationsFor(p base, r *xvlib.Rng, all bool) []string {
 		ms = append(ms, m)
 		if !strings.HasPrefix(m, "txcontent") {
 			ms = append(ms, m+"+fixbody", m+"+inc:txcount", m+"+dec:txcount")
+			// coordinated tamper: the body and the carried merkle tree (outside id and signature) are changed together
+			ms = append(ms, m+"+fixleaves", m+"+fixtree")
 		}
 	}
 	return ms
@@ -950,7 +978,7 @@ func genC08(tier string, rng *xvlib.Rng, run func(string, bool)) {
 	run(fmt.Sprintf("vb %s m=none", base{n: 0, qc: -1, ph: 1}), true)
 	run(fmt.Sprintf("vb %s m=none", base{n: 2, qc: -1, ph: 0}), true)
 	out.Stats.Exhaustive = false
-	out.Stats.Rule = fmt.Sprintf("leaf: every n ≤ %d (+ neighbours of 2^10..2^12); shape: whole MakeMerkleTree array for every n ≤ 300; pre: %d random header field assignments (extracted schema bytes, double-SHA-256 checked against MakeBlockID); vb: node-formatted blocks with n ∈ %v transactions × %d parameter draws (justify none/0/1/3 signatures, 0–3 failed txs, target bits 0/5/-3/1, 3 proposer keys) × every single mutation of each header field, justify/failed-tx structure, body (drop/insert/duplicate/swap/alter/nil/truncate/shift at every position for n ≤ 9, else first/last/random) and signature, each alone and followed by the recomputations a forger can do (id, count, root); a case is non-trivial unless it is leaf 0 / shape 0 / an unmutated block; distinct by op line", maxLeaf, nPre, ns, perN)
+	out.Stats.Rule = fmt.Sprintf("leaf: every n ≤ %d (+ neighbours of 2^10..2^12); shape: whole MakeMerkleTree array for every n ≤ 300; pre: %d random header field assignments (extracted schema bytes, double-SHA-256 checked against MakeBlockID); vb: node-formatted blocks with n ∈ %v transactions × %d parameter draws (justify none/0/1/3 signatures, 0–3 failed txs, target bits 0/5/-3/1, 3 proposer keys) × every single mutation of each header field, justify/failed-tx structure, body (drop/insert/duplicate/swap/alter/nil/truncate/shift at every position for n ≤ 9, else first/last/random) and signature, each alone and followed by the recomputations a forger can do (id, count, root; the leaves / all nodes below the root of the carried merkle tree, which is outside id and signature); a case is non-trivial unless it is leaf 0 / shape 0 / an unmutated block; distinct by op line", maxLeaf, nPre, ns, perN)
 	out.Stats.Notes = append(out.Stats.Notes,
 		"observations (distribution keys observation:*): fields outside the id — Height, FailedTxs keys, TargetBits ≤ 0, stored MerkleTree — and two-field boundary shifts (jshift, fshift) are accepted unchanged; a consistent block re-issued under another proposer+key (takeover) verifies (proposer entitlement is C16); transaction content with unchanged Txid (txcontent) is not seen by VerifyBlock (txid recomputation is C07); a formatted block with 0 transactions or empty PreHash does not verify",
 		"not covered: consensus CheckMinerMatch wrappers (C16 / C14)")
